@@ -81,7 +81,7 @@ class Model:
 
 def real_apply(nodes, op):
     try:
-        with time_limit(10):
+        with time_limit(30):
             if op[0] == "fix":
                 nd = nodes[op[1]]
                 if nd.parent is not None and nd in nd.parent.children:
